@@ -126,7 +126,10 @@ def correspondence(scn, res, projections):
                 dis.append((ci, "callback/sink-events", " ".join(x)[:400], " ".join(y)[:400]))
     if "wire" in projections:
         mw = []
-        for b in mc:
+        cut = scn.get("skip_corr_from")
+        for bi, b in enumerate(mc):
+            if cut is not None and bi >= cut:
+                break                 # (calls outside the model: what they put on the wire is left to the oracles)
             mw += P.model_wire(b["ev"])
         pw = []
         for log in res["peer"]:
@@ -134,6 +137,8 @@ def correspondence(scn, res, projections):
                 line = l["line"]
                 line = line[:-2] if line.endswith(b"\r\n") else line
                 pw.append((l["secured"], canon_line(line)))
+        if cut is not None:
+            pw = pw[:len(mw)]
         if mw != pw:
             # a client that closes with replies still unread resets the connection: its QUIT may be lost with the reset
             lossy = sum(1 for log in res["peer"] if log.get("connected") and log.get("ctl_eof") != "clean")
@@ -1490,6 +1495,13 @@ def fam_reconnect(rng, n, dist, tls_share=0.4):
             b.add_call(("C", "unresolvable", None), throws=True, check_open=False)
             if rng.random() < 0.5:
                 b.add_call(("C", "unresolvable", (b"u", b"p")), throws=True, check_open=False)
+            if rng.random() < 0.6:
+                # the application goes on with the client: whether the old connection was kept or dropped, nothing may
+                # travel on it in another form than before (a session that was inside TLS does not continue in clear text)
+                b.add_call(("S", b"NOOP", None), cmds=[b"NOOP"], replies=[], may_throw=True, cmds_may_be_lost=True, check_open=False,
+                           reply_optional=True)
+                b.cur.append(P.reaction([b.m(200, "noop")]))
+                dist.add("reconnect:command-after-a-failed-connect-while-connected")
             b.add_call(("X", False), open_after=False, may_throw=True, check_open=True)
             b.connected = False
             dist.add("reconnect:connect-to-an-unresolvable-name-while-connected")
